@@ -2,7 +2,6 @@
    splice_children) and how they re-base handles. *)
 From V.model Require Import Base Deb822Lex Deb822Parse Deb822Edit Deb822Store.
 From V.proofs Require Import BaseP.
-Set Default Timeout 60.
 
 (* ------------------------------------------------------------------ lists *)
 Lemma upd_nth_length {A} i (f : A -> A) l : length (upd_nth i f l) = length l.
